@@ -148,3 +148,9 @@ Definition wf {V} (c : chan V) : Prop :=
    than the multiset equation of the property text.) *)
 Definition conserved {V} (b0 : list V) (w : world V) : Prop :=
   b0 ++ sent_vals (log w) = rcvd_vals (log w) ++ buf (ch w).
+
+(* [subseq l1 l2]: l1 is l2 with some elements left out, order kept. *)
+Inductive subseq {A} : list A -> list A -> Prop :=
+| subseq_nil : subseq [] []
+| subseq_skip x l1 l2 : subseq l1 l2 -> subseq l1 (x :: l2)
+| subseq_take x l1 l2 : subseq l1 l2 -> subseq (x :: l1) (x :: l2).
